@@ -61,6 +61,9 @@ def run(ctx):
     out = SP.run_streams(ctx, MASK, monitor, 'naive-contract', [
         ('G-sim-naive', 220, 4000, dict(algo='naive')),
         ('G-sim-starter', 160, 3000, dict(algo='starter')),
+        ('G-sim-naive-siblings', 80, 1500, dict(abandon='naive')),
+        ('G-sim-starter-siblings', 40, 800, dict(abandon='starter')),
+        ('G-sim-naive-branches', 40, 800, dict(branches='naive')),
     ])
     # monitor-only stream: fractional CPU capacities (outside the integer-CPU domain of the model, so no
     # correspondence case is produced; the monitor still judges the implementation)
